@@ -1,18 +1,25 @@
 ---------------------------- MODULE Trace_FiniteMap ----------------------------
 (* V binding for C02: validates executions recorded from the real asl::Map / Dic / HashMap / HashDic / Set
-   (harness/c02_record.cpp) against the actions and lookup operators of FiniteMap.  One ndjson line per public
-   call: op, arguments, the result the call returned, and after the call the length and reference count of the
-   handle it went through (and of the result handle); "check" events carry the complete content of every live
-   handle with at most 300 entries.  The trace is accepted iff every line is a step of the corresponding FiniteMap
+   (harness/c02_record.cpp) against the actions and lookup operators of FiniteMap and FiniteMapExt.  One ndjson
+   line per public call: op, arguments, the result the call returned, and after the call the length and reference
+   count of the handle it went through (and of the result handle); "check" events carry the complete content of
+   every live handle with at most 300 entries.  The trace is accepted iff every line is a step of the corresponding
    action (or, for a lookup, a stuttering step whose logged result equals the specification's operator) whose
-   post-state matches what the implementation reported.                                                         *)
-EXTENDS FiniteMap, IOUtils
+   post-state matches what the implementation reported.
+
+   Enumerator objects are recorded step by step (ebegin / estep with the key and value the real enumerator denotes,
+   eassign, eend) and must be steps of EnumBeginK / EnumStepK / EnumAssign / EnumEnd: the key of every step has to
+   be one not visited yet - the least one when the container is ordered (e.ord = 1) - and the end may only be
+   reported when none is left.  The calls recorded between two steps go through the X... actions, i.e. the
+   recorder's own discipline (no change of the key set under an open enumerator) is checked as well.  "enum" events
+   carry a whole foreach2 / range-based for loop, "array" events Set::array().                                   *)
+EXTENDS FiniteMapExt, IOUtils
 
 T == ndJsonDeserialize(IOEnv.TRACE)
 VARIABLE l
-tvars == <<vars, l>>
+tvars == <<xvars, l>>
 
-TInit == Init /\ l = 1
+TInit == InitX /\ l = 1
 
 RCof(hbx, h) == Cardinality({x \in H : hbx[x] = hbx[h]})
 PostOK(e) == /\ hb'[e.h] # 0 => /\ MapLen(blk'[hb'[e.h]]) = e.len
@@ -29,6 +36,15 @@ CheckOK(e) == /\ {e.obs[i].h : i \in 1..Len(e.obs)} = Live
                     /\ RC(hb[o.h]) = o.rc
                     /\ o.full = 1 => EntrySeq(M(o.h)) = o.kv
 
+\* a complete loop over the container (foreach2 / range-based for / foreach): every entry once, with its value,
+\* in ascending key order when the container is ordered
+LoopOK(m, kv, ord) ==
+    LET n == Len(kv) IN
+    /\ n = MapLen(m)
+    /\ {kv[i].k : i \in 1..n} = Dom(m)
+    /\ {i \in 1..n : m[kv[i].k] # kv[i].v} = {}
+    /\ ord = 1 => {i \in 1..(n - 1) : kv[i].k >= kv[i + 1].k} = {}
+
 \* lookups and comparisons: the state does not change, the logged result must be the specification's
 Query(e) ==
     /\ e.h \in Live
@@ -39,8 +55,19 @@ Query(e) ==
          [] e.op = "eq"     -> e.g \in Live /\ EqR(M(e.h), M(e.g)) = e.r /\ e.nr = e.r
          [] e.op = "sub"    -> e.g \in Live /\ SubsetR(M(e.h), M(e.g)) = e.r
          [] e.op = "any"    -> e.g \in Live /\ AnyR(M(e.h), M(e.g)) = e.r
+         [] e.op = "enum"   -> LoopOK(M(e.h), e.kv, e.ord)
+         [] e.op = "array"  -> Len(e.ks) = MapLen(M(e.h)) /\ {e.ks[i] : i \in 1..Len(e.ks)} = Dom(M(e.h))
     /\ MapLen(M(e.h)) = e.len /\ RC(hb[e.h]) = e.rc
-    /\ UNCHANGED vars
+    /\ UNCHANGED xvars
+
+\* enumerator steps: the recorded key must be an admissible choice, the recorded value the entry's value
+TEnumBegin(e) == /\ EnumBeginK(e.h, e.k)
+                 /\ (e.ord = 1 /\ e.k # 0) => {y \in Dom(M(e.h)) : y < e.k} = {}
+                 /\ LastR = e.r
+TEnumStep(e) == /\ Open /\ en.h = e.h
+                /\ EnumStepK(e.k)
+                /\ (e.ord = 1 /\ e.k # 0) => {y \in en.todo : y < e.k} = {}
+                /\ LastR = e.r
 
 TStep ==
   /\ l <= Len(T)
@@ -50,22 +77,30 @@ TStep ==
         /\ hb' = [h \in H |-> IF h = 1 THEN 1 ELSE 0]
         /\ blk' = [b \in B |-> Empty]
         /\ hist' = <<>> /\ hz' = {}
-     \/ /\ e.op = "check" /\ CheckOK(e) /\ UNCHANGED vars
-     \/ /\ e.op \in {"has", "find", "get", "cindex", "eq", "sub", "any"} /\ Query(e)
-     \/ /\ e.op = "set" /\ SetKV(e.h, e.k, e.v) /\ PostOK(e)
-     \/ /\ e.op = "index" /\ Index(e.h, e.k) /\ LastR = e.r /\ PostOK(e)
-     \/ /\ e.op = "remove" /\ RemoveK(e.h, e.k) /\ (e.r >= 0 => LastR = e.r) /\ PostOK(e)
-     \/ /\ e.op = "clear" /\ Clear(e.h) /\ PostOK(e)
-     \/ /\ e.op = "add" /\ AddMap(e.h, e.g) /\ PostOK(e)
-     \/ /\ e.op = "clone" /\ Clone(e.h, e.g) /\ PostOK(e)
-     \/ /\ e.op = "dup" /\ Dup(e.h) /\ PostOK(e)
-     \/ /\ e.op = "new" /\ NewEmpty(e.g) /\ PostOK(e)
-     \/ /\ e.op = "union" /\ Union(e.h, e.g2, e.g) /\ PostOK(e)
-     \/ /\ e.op = "inter" /\ Inter(e.h, e.g2, e.g) /\ PostOK(e)
-     \/ /\ e.op = "diff" /\ Diff(e.h, e.g2, e.g) /\ PostOK(e)
-     \/ /\ e.op = "copyHandle" /\ CopyHandle(e.h, e.g) /\ PostOK(e)
-     \/ /\ e.op = "assignHandle" /\ AssignHandle(e.h, e.g) /\ PostOK(e)
-     \/ /\ e.op = "dropHandle" /\ DropHandle(e.h)
+        /\ sz' = [b \in B |-> -1] /\ en' = NoEnum
+     \/ /\ e.op = "check" /\ CheckOK(e) /\ UNCHANGED xvars
+     \/ /\ e.op \in {"has", "find", "get", "cindex", "eq", "sub", "any", "enum", "array"} /\ Query(e)
+     \/ /\ e.op = "set" /\ XSetKV(e.h, e.k, e.v) /\ PostOK(e)
+     \/ /\ e.op = "index" /\ XIndex(e.h, e.k) /\ LastR = e.r /\ PostOK(e)
+     \/ /\ e.op = "remove" /\ XRemoveK(e.h, e.k) /\ (e.r >= 0 => LastR = e.r) /\ PostOK(e)
+     \/ /\ e.op = "clear" /\ XClear(e.h) /\ PostOK(e)
+     \/ /\ e.op = "add" /\ XAddMap(e.h, e.g) /\ PostOK(e)
+     \/ /\ e.op = "clone" /\ XClone(e.h, e.g) /\ PostOK(e)
+     \/ /\ e.op = "dup" /\ XDup(e.h) /\ PostOK(e)
+     \/ /\ e.op = "new" /\ (IF "n" \in DOMAIN e THEN XNewSized(e.g, e.n) ELSE XNewEmpty(e.g)) /\ PostOK(e)
+     \/ /\ e.op = "list" /\ XFromList(e.g, e.kv) /\ PostOK(e)
+     \/ /\ e.op = "union" /\ XUnion(e.h, e.g2, e.g) /\ PostOK(e)
+     \/ /\ e.op = "inter" /\ XInter(e.h, e.g2, e.g) /\ PostOK(e)
+     \/ /\ e.op = "diff" /\ XDiff(e.h, e.g2, e.g) /\ PostOK(e)
+     \/ /\ e.op = "copyHandle" /\ XCopyHandle(e.h, e.g) /\ PostOK(e)
+     \/ /\ e.op = "assignHandle" /\ XAssignHandle(e.h, e.g) /\ PostOK(e)
+     \/ /\ e.op = "assignSelf" /\ XAssignSelf(e.h) /\ PostOK(e)
+     \/ /\ e.op = "dropHandle" /\ XDropHandle(e.h)
+     \/ /\ e.op = "poke" /\ XPoke(e.h, e.k, e.v) /\ LastR = e.r /\ PostOK(e)
+     \/ /\ e.op = "ebegin" /\ TEnumBegin(e) /\ PostOK(e)
+     \/ /\ e.op = "estep" /\ TEnumStep(e) /\ PostOK(e)
+     \/ /\ e.op = "eassign" /\ Open /\ en.h = e.h /\ en.cur = e.k /\ EnumAssign(e.v) /\ PostOK(e)
+     \/ /\ e.op = "eend" /\ Open /\ en.h = e.h /\ EnumEnd /\ PostOK(e)
 
 TraceSpec == TInit /\ [][TStep]_tvars
 TraceAccepted == TLCGet("stats").diameter - 1 = Len(T)
